@@ -21,6 +21,9 @@ pub struct Caller {
     pub cancel: CancelSpec,
     pub drop_unpolled: bool,
     pub depth: u8,
+    /// keep the call future unpolled for this long before awaiting it
+    #[serde(default)]
+    pub hold_unpolled_ms: u64,
 }
 
 #[derive(Clone, Debug, Serialize, Deserialize, PartialEq)]
@@ -38,7 +41,8 @@ const PROBE_LAT: u64 = 20;
 
 pub fn gen(rng: &mut Rng) -> Scn {
     let max = rng.range(1, 4) as u32;
-    let max_wait = *rng.pick(&[None, None, Some(0u64), Some(5), Some(10), Some(25)]);
+    // u64::MAX stands for Duration::MAX ("wait for ever", written as a finite setting)
+    let max_wait = *rng.pick(&[None, None, Some(0u64), Some(0), Some(5), Some(10), Some(10), Some(25), Some(25), Some(u64::MAX)]);
     let n = rng.range(2, 12) as usize;
     let faulty = rng.chance(2, 3);
     let starts = [0u64, 0, 0, 1, 5, 5, 10, 10, 15, 20, 25, 30, 40];
@@ -62,6 +66,7 @@ pub fn gen(rng: &mut Rng) -> Scn {
             cancel,
             drop_unpolled: faulty && rng.chance(1, 12),
             depth: rng.below(3) as u8,
+            hold_unpolled_ms: if faulty && rng.chance(1, 10) { *rng.pick(&[1u64, 5, 10, 20]) } else { 0 },
         });
     }
     Scn {
@@ -81,7 +86,8 @@ pub fn valid(s: &Scn) -> bool {
         && s.callers.len() <= 16
         && !s.callers.is_empty()
         && s.callers.iter().all(|c| c.start_ms <= 500 && c.beh.lat_ms <= 200 && c.beh.yields <= 4)
-        && s.max_wait.map(|w| w <= 100).unwrap_or(true)
+        && s.max_wait.map(|w| w <= 100 || w == u64::MAX).unwrap_or(true)
+        && s.callers.iter().all(|c| c.hold_unpolled_ms <= 50)
         && (s.probes == 0 || (s.probe_at >= 900 && s.probe_at <= 2000 && s.probes == s.max + 1))
         && s.knobs.jumps.iter().all(|j| j.0 <= 500 && j.1 <= 200)
         && s.knobs.jumps.len() <= 3
@@ -125,7 +131,7 @@ pub fn run(s: &Scn, ctx: &mut RunCtx, prefix: &'static str) -> RunOutput {
         });
         let mut b = BulkheadLayer::builder().max_concurrent_calls(scn.max as usize);
         if let Some(w) = scn.max_wait {
-            b = b.max_wait_duration(Duration::from_millis(w));
+            b = b.max_wait_duration(if w == u64::MAX { Duration::MAX } else { Duration::from_millis(w) });
         }
         if scn.listener_panic {
             b = b
@@ -144,11 +150,11 @@ pub fn run(s: &Scn, ctx: &mut RunCtx, prefix: &'static str) -> RunOutput {
         let base = layer.layer(SimInner::new(0));
         let mut defs = vec![];
         for i in 0..total_tasks {
-            let (start_ms, cancel, drop_unpolled, depth) = if i < n {
+            let (start_ms, cancel, drop_unpolled, depth, hold) = if i < n {
                 let c = &scn.callers[i];
-                (c.start_ms, c.cancel.to_cancel(), c.drop_unpolled, c.depth)
+                (c.start_ms, c.cancel.to_cancel(), c.drop_unpolled, c.depth, c.hold_unpolled_ms)
             } else {
-                (scn.probe_at, crate::exec::Cancel::Never, false, 0)
+                (scn.probe_at, crate::exec::Cancel::Never, false, 0, 0)
             };
             let mut svc = base.clone();
             for _ in 0..depth {
@@ -170,6 +176,12 @@ pub fn run(s: &Scn, ctx: &mut RunCtx, prefix: &'static str) -> RunOutput {
                                 drop(f);
                                 return Out::err("DroppedUnpolled", None);
                             }
+                            if hold > 0 {
+                                world::fault("hold_unpolled");
+                                tokio::time::sleep(Duration::from_millis(hold)).await;
+                            }
+                            // arrival = the first poll of the call future
+                            world::note("arrive", i as i64, 0);
                             map_out(f.await)
                         }
                     }
@@ -199,8 +211,8 @@ pub fn run(s: &Scn, ctx: &mut RunCtx, prefix: &'static str) -> RunOutput {
             let mut started = std::collections::BTreeSet::new();
             for r in &w.log {
                 match &r.ev {
-                    Ev::FirstPoll { task } => {
-                        started.insert(*task);
+                    Ev::Note { tag: "arrive", a, .. } => {
+                        started.insert(*a as u32);
                     }
                     Ev::TaskEnd { task, .. } => {
                         started.remove(task);
@@ -240,6 +252,14 @@ pub fn run(s: &Scn, ctx: &mut RunCtx, prefix: &'static str) -> RunOutput {
     let log = world::with(|w| std::mem::take(&mut w.log));
     let calls = inner_calls(&log);
     let total_jump = s.knobs.total_jump();
+    let eff_max_wait = s.max_wait.filter(|w| *w != u64::MAX);
+    // arrival (first poll of the call future) per task: (seq, t_us, step)
+    let mut arrive: Vec<Option<(u64, u64, u32)>> = vec![None; rep.tasks.len()];
+    for r in log.iter() {
+        if let Ev::Note { tag: "arrive", a, .. } = &r.ev {
+            arrive[*a as usize] = Some((r.seq, r.t_us, r.step));
+        }
+    }
     let mut contention = false;
     let mut had_fault = false;
     for c in calls.iter().filter(|c| c.svc == 0) {
@@ -262,23 +282,8 @@ pub fn run(s: &Scn, ctx: &mut RunCtx, prefix: &'static str) -> RunOutput {
             format!("peak in-flight {} > max {}", world::with(|w| w.max_in_flight[0]), max),
         );
     }
-    // queued set helper
-    let first_poll: Vec<Option<(u64, u32)>> = rep
-        .tasks
-        .iter()
-        .map(|t| {
-            if t.first_poll_seq > 0 {
-                let st = log
-                    .iter()
-                    .find(|r| r.seq == t.first_poll_seq)
-                    .map(|r| r.step)
-                    .unwrap_or(0);
-                Some((t.first_poll_seq, st))
-            } else {
-                None
-            }
-        })
-        .collect();
+    let first_poll: Vec<Option<(u64, u32)>> = arrive.iter().map(|a| a.map(|(s, _, st)| (s, st))).collect();
+    let arr_us = |i: usize| arrive[i].map(|a| a.1).unwrap_or(0);
     for (i, t) in rep.tasks.iter().enumerate() {
         let Some((fp_seq, fp_step)) = first_poll[i] else { continue };
         let is_probe = i >= n;
@@ -291,8 +296,7 @@ pub fn run(s: &Scn, ctx: &mut RunCtx, prefix: &'static str) -> RunOutput {
         // queued before my arrival
         let queued_before = rep.tasks.iter().enumerate().any(|(j, u)| {
             j != i
-                && u.first_poll_seq > 0
-                && u.first_poll_seq < fp_seq
+                && arrive[j].map(|a| a.0 < fp_seq).unwrap_or(false)
                 && (u.end_seq == 0 || u.end_seq > fp_seq)
                 && !calls
                     .iter()
@@ -301,14 +305,14 @@ pub fn run(s: &Scn, ctx: &mut RunCtx, prefix: &'static str) -> RunOutput {
         if !drop_unpolled && before < max && !queued_before {
             // "at once" = at the same virtual instant (an implementation may hop through a spawned task)
             let _ = fp_step;
-            let admitted_now = my_calls.iter().any(|c| c.start_us == t.first_poll_us);
+            let admitted_now = my_calls.iter().any(|c| c.start_us == arr_us(i));
             if !admitted_now {
                 world::violation(
                     "C07.admit_at_once",
                     "",
                     format!(
                         "caller {} arrived at t={}us with {} of {} slots in use and nobody queued, but its inner call did not start at that instant",
-                        i, t.first_poll_us, before, max
+                        i, arr_us(i), before, max
                     ),
                 );
             }
@@ -326,14 +330,14 @@ pub fn run(s: &Scn, ctx: &mut RunCtx, prefix: &'static str) -> RunOutput {
                 match o.err {
                     Some("Timeout") => {
                         had_fault = true;
-                        match s.max_wait {
+                        match eff_max_wait {
                             None => world::violation(
                                 "C07.only_timeout",
                                 "timeout_without_max_wait",
                                 format!("caller {} got Timeout although no max_wait is configured", i),
                             ),
                             Some(mw) => {
-                                let want = t.first_poll_us + mw * 1000;
+                                let want = arr_us(i) + mw * 1000;
                                 let ok = if total_jump == 0 {
                                     t.end_us == want
                                 } else {
@@ -345,7 +349,7 @@ pub fn run(s: &Scn, ctx: &mut RunCtx, prefix: &'static str) -> RunOutput {
                                         "",
                                         format!(
                                             "caller {} arrived at {}us, max_wait {}ms, rejected at {}us",
-                                            i, t.first_poll_us, mw, t.end_us
+                                            i, arr_us(i), mw, t.end_us
                                         ),
                                     );
                                 }
@@ -415,7 +419,7 @@ pub fn run(s: &Scn, ctx: &mut RunCtx, prefix: &'static str) -> RunOutput {
                     .iter()
                     .filter(|c| c.svc == 0 && c.end_seq.is_none())
                     .count() as i64;
-                let blocked = s.max_wait.is_none() && my_calls.is_empty() && end_inflight >= max;
+                let blocked = eff_max_wait.is_none() && my_calls.is_empty() && end_inflight >= max;
                 if !own_never && !blocked {
                     world::violation(
                         "C07.no_hang",
@@ -443,7 +447,7 @@ pub fn run(s: &Scn, ctx: &mut RunCtx, prefix: &'static str) -> RunOutput {
                 .iter()
                 .filter(|(i, _)| {
                     calls.iter().any(|c| {
-                        c.svc == 0 && c.req == *i as u32 && c.start_us == rep.tasks[*i].first_poll_us
+                        c.svc == 0 && c.req == *i as u32 && c.start_us == arr_us(*i)
                     })
                 })
                 .count() as i64;
